@@ -81,7 +81,8 @@ def bounded_registered_access(tier, seed):
 
 
 from contracts import extra as _extra
-BOUNDED = [bounded_registered_access, _extra.bounded_from_text]
+from contracts import extra as _extra2
+BOUNDED = [bounded_registered_access, _extra.bounded_from_text, _extra2.bounded_path_composition]
 ASSUMPTIONS = C02.ASSUMPTIONS + [
     'the get handler chosen for a value is TargetRegistry.get_handler(\'get\', value): get_handler / register / _get_closest_type are under contract here too (shared with C13); tree construction is bounded (C13 stand-in run here); the default table is read natively from the initialised registry',
     'copy.copy of the PathAccessError in glom() preserves class, exc, path and part_idx (C04)',
